@@ -370,7 +370,8 @@ class _CenterManifoldMapDynamicsService(_MapDynamicsServiceBase):
         if options is None:
             options = self.map_options
         
-        cache_key = self.make_key("generate", section_coord, tuple(sorted(options.to_dict().items())))
+        # The map depends on the manifold's current degree (its Hamiltonian) as well
+        cache_key = self.make_key("generate", section_coord, self.center_manifold.degree, tuple(sorted(options.to_dict().items())))
 
         def _factory() -> CenterManifoldDomainPayload:
             self.generator.update_config(section_coord=section_coord)
@@ -384,10 +385,11 @@ class _CenterManifoldMapDynamicsService(_MapDynamicsServiceBase):
                     "section_coord": section_coord,
                 }
             )
-            self.apply_center_manifold_map(payload, section_coord=section_coord)
             return payload
 
         payload = self.get_or_create(cache_key, _factory)
+        # Store the section of the latest call, also when it is served from the cache
+        self.apply_center_manifold_map(payload, section_coord=section_coord)
         return CenterManifoldMapResults(
             payload.points,
             payload.states,
